@@ -235,7 +235,8 @@ class VTuner:
             self.port.on_trial_error(vt.trial)
             self._notify("post_error", vt)
             return
-        if vt.next_level > vt.run_max:
+        overshoot = (self.p.get("overshoot") and vt.stride > 1 and (vt.last_level or 0) < vt.run_max)
+        if vt.next_level > vt.run_max and not overshoot:
             # all levels reported and the last one was answered CONTINUE: completes
             vt.status = "completed"
             self.running.remove(tid)
